@@ -258,6 +258,7 @@ class Script:
         self.log = []          # (ip, port, head bytes, body bytes)
         self.robots_replies = robots_replies      # None: /robots.txt is an ordinary page
         self.rlog = []         # requests for /robots.txt when robots_replies is given
+        self.on_request = None  # callback(k, head) when the k-th page request has arrived, before it is answered
 
 
 def response_bytes(rep):
@@ -297,7 +298,8 @@ class ScriptServer:
             if len(self.buf) < self.need_body:
                 return
             body, self.buf = self.buf[:self.need_body], self.buf[self.need_body:]
-            if self.script.robots_replies is not None and self.head.split(b' ')[1:2] == [b'/robots.txt']:
+            if self.script.robots_replies is not None and self.head.split(b' ')[1:2] and \
+                    self.head.split(b' ')[1].split(b'?')[0] == b'/robots.txt':
                 k = len(self.script.rlog)
                 self.script.rlog.append((conn.address[0], conn.address[1], self.head, body))
                 replies = self.script.robots_replies
@@ -305,6 +307,8 @@ class ScriptServer:
                 k = len(self.script.log)
                 self.script.log.append((conn.address[0], conn.address[1], self.head, body))
                 replies = self.script.replies
+                if self.script.on_request:
+                    self.script.on_request(k, self.head)
             self.head = None
             rep = replies[k] if k < len(replies) else {'status': 200, 'mode': 'resp'}
             mode = rep.get('mode', 'resp')
@@ -555,7 +559,13 @@ def model_replies(log, replies, loads_iter):
         try:
             st, loc, base = next(loads_iter)
         except StopIteration:
-            raise Infra('response without RedirectTracker.load')
+            # the response was not seen by the RedirectTracker the application was configured with (a client built
+            # with another tracker): take status / Location from the script and the URL from the request head
+            _p, _m, target, _v, fields = split_request(log[k][2])
+            hostv = [v for n, v in fields if n.lower() == 'host']
+            st = rep['status']
+            loc = rep['location'].decode('latin-1').strip() if rep.get('location') is not None else None
+            base = 'http://%s%s' % (hostv[0] if hostv else 'unknown.invalid', target.decode('latin-1'))
         kind, c = 0, None
         if loc:
             try:
@@ -570,7 +580,8 @@ def model_replies(log, replies, loads_iter):
     return out
 
 
-def run_crawl(url, replies, tries, max_redirects, login=None, timeout=20, robots=None, cap=None, host_fail=None, retry=None):
+def run_crawl(url, replies, tries, max_redirects, login=None, timeout=20, robots=None, cap=None, host_fail=None, retry=None,
+              extra_argv=(), recursive=False, on_request=None, on_event=None):
     """Builder(args).build().run() of the REAL application (pipeline, URL table, processor, rules,
     filters, web client) against the scripted servers.  Returns the visits of `url` as seen at the
     URL table: [(requests issued during the visit, status after, try_count after)], plus the
@@ -584,8 +595,16 @@ def run_crawl(url, replies, tries, max_redirects, login=None, timeout=20, robots
     from wpull.protocol.http.redirect import RedirectTracker
 
     script = Script(replies, robots_replies=(robots['replies'] if robots else None))
+    script.on_request = on_request
     loads = []
-    events = []
+
+    class EventList(list):
+        def append(self, ev):
+            list.append(self, ev)
+            if on_event:
+                on_event(ev)
+    events = EventList()
+    resolvers = []
     if cap is None:
         # a terminating crawl of ONE url makes at most tries+1 check-outs (tries >= 1); with tries = 0 every
         # visit that is offered again consumed a scripted reply
@@ -618,6 +637,7 @@ def run_crawl(url, replies, tries, max_redirects, login=None, timeout=20, robots
     class Res(NamedResolver):
         def __init__(self, *a, **k):
             super().__init__()
+            resolvers.append(self)
 
         @classmethod
         def new_cache(cls):
@@ -651,7 +671,8 @@ def run_crawl(url, replies, tries, max_redirects, login=None, timeout=20, robots
                 raise ConnectionRefusedError(111, 'Connection refused')
         net = RefusingNet()
     tmp = tempfile.mkdtemp(prefix='c18-')
-    argv = [url] + (['--recursive', '--level', '1'] if robots else ['--no-robots']) + ['--tries', str(tries), '--max-redirect', str(max_redirects), '--waitretry', '0',
+    argv = [url] + (['--recursive', '--level', '1'] if robots else (['--recursive', '--no-robots'] if recursive else ['--no-robots'])) \
+        + list(extra_argv) + ['--tries', str(tries), '--max-redirect', str(max_redirects), '--waitretry', '0',
             '-q', '--directory-prefix', tmp, '--delete-after', '--no-check-certificate', '--html-parser', 'html5lib']
     if login:
         argv += ['--http-user', login[0], '--http-password', login[1]]
@@ -729,7 +750,55 @@ def run_crawl(url, replies, tries, max_redirects, login=None, timeout=20, robots
         # no request ever reaches a server: the model gets "no connection" for every attempt
         mreplies = [(0, False, 5 if host_fail == 'refused' else 6, None)] * (max(tries, 1) + 4)
     from wpull.url import URLInfo
-    return {'visits': visits, 'events': events, 'hops': list(script.log), 'mreplies': mreplies, 'exit': exit_code,
+    def name_of(ip):
+        for r in resolvers:
+            h = r.host_of(ip)
+            if h:
+                return h
+        return ip
+    named = [(name_of(ip), port, head, bd) for ip, port, head, bd in script.log]
+    return {'visits': visits, 'events': list(events), 'hops': list(script.log), 'named_hops': named, 'mreplies': mreplies, 'exit': exit_code,
             'hung': hung, 'capped': capped[0], 'checkouts': len([e for e in events if e[0] == 'out']),
             'rhops': list(script.rlog), 'rmreplies': rmreplies, 'robots': robots, 'retry': retry, 'attempts': attempts[0],
             'rejects': rejects, 'answers': [], 'init_pairs': [], 'init_url': URLInfo.parse(url)}
+
+
+def crawl_in_child(logpath, kill_at, **kw):
+    """run_crawl in a forked child that appends what happens to `logpath` (one line per page request, check-out,
+    check-in) and, with `kill_at` = k, dies (os._exit) when the k-th page request of this run has arrived and is not
+    yet answered — a crash while an attempt is in flight.  Returns the child's exit status."""
+    import os
+    pid = os.fork()
+    if pid == 0:
+        code = 0
+        try:
+            fd = os.open(logpath, os.O_WRONLY | os.O_APPEND | os.O_CREAT, 0o600)
+            try:
+                nul = os.open(os.devnull, os.O_WRONLY)
+                os.dup2(nul, 2)
+                os.dup2(nul, 1)
+            except OSError:
+                pass
+
+            def on_request(k, head):
+                os.write(fd, b'req %d\n' % k)
+                if kill_at is not None and k == kill_at:
+                    os.write(fd, b'killed\n')
+                    os._exit(9)
+
+            def on_event(ev):
+                if ev[0] == 'out':
+                    os.write(fd, ('out %s %d\n' % (ev[2], ev[3])).encode())
+                else:
+                    os.write(fd, ('in %s %d\n' % (ev[2], ev[3])).encode())
+            res = run_crawl(on_request=on_request, on_event=on_event, **kw)
+            os.write(fd, ('end capped=%d hung=%d\n' % (1 if res['capped'] else 0, 1 if res['hung'] else 0)).encode())
+        except BaseException as e:     # noqa
+            try:
+                os.write(fd, ('crash %s\n' % type(e).__name__).encode())
+            except Exception:
+                pass
+            code = 3
+        os._exit(code)
+    _, status = os.waitpid(pid, 0)
+    return status
